@@ -1831,4 +1831,58 @@ theorem stuckOld_reach : Reach cfgOld stuckOld := by
   | some s => simp
 
 
+/-! ### trace validation: what `Spec.C14.replay` accepts is a run of the model -/
+
+theorem tstep_reach {cfg : Cfg} {t t' : TState} {e : Ev} (h : Reach cfg t.s) (hs : tstep cfg t e = some t') :
+    Reach cfg t'.s := by
+  unfold tstep at hs
+  cases hi : interp cfg t e with
+  | none => simp [hi] at hs
+  | some p =>
+    obtain ⟨ls, ex, bw⟩ := p
+    simp only [hi] at hs
+    cases hr : runSched cfg t.s ls with
+    | none => simp [hr] at hs
+    | some s' =>
+      simp only [hr, Option.some.injEq] at hs
+      subst hs
+      exact reach_runSched h hr
+
+theorem replay_reach {cfg : Cfg} {evs : Array Ev} {order : List Nat} {t t' : TState} (h : Reach cfg t.s)
+    (hr : replay cfg evs t order = some t') : Reach cfg t'.s := by
+  induction order generalizing t with
+  | nil => simp [replay] at hr; exact hr ▸ h
+  | cons i is ih =>
+    simp only [replay] at hr
+    cases he : evs[i]? with
+    | none => simp [he] at hr
+    | some e =>
+      simp only [he] at hr
+      cases hs : tstep cfg t e with
+      | none => simp [hs] at hr
+      | some t1 =>
+        simp only [hs] at hr
+        exact ih (tstep_reach h hs) hr
+
+theorem replay_take {cfg : Cfg} {evs : Array Ev} {order : List Nat} {t t' : TState}
+    (hr : replay cfg evs t order = some t') (k : Nat) : ∃ t'', replay cfg evs t (order.take k) = some t'' := by
+  induction order generalizing t k with
+  | nil => exact ⟨t, by simp [replay]⟩
+  | cons i is ih =>
+    cases k with
+    | zero => exact ⟨t, by simp [replay]⟩
+    | succ k =>
+      simp only [replay] at hr
+      cases he : evs[i]? with
+      | none => simp [he] at hr
+      | some e =>
+        simp only [he] at hr
+        cases hs : tstep cfg t e with
+        | none => simp [hs] at hr
+        | some t1 =>
+          simp only [hs] at hr
+          obtain ⟨t2, h2⟩ := ih hr k
+          exact ⟨t2, by simp [replay, he, hs, h2]⟩
+
+
 end AutoVerif.C14
